@@ -73,6 +73,38 @@ async fn main() {
         writeln!(f, "F done").unwrap(); f.sync_all().unwrap();
         std::process::abort();
     }
+    if argv.len() > 1 && argv[1] == "--child-two" {
+        // two authors in one topic; the only operation of the author with the LOWER key is deleted again (its topic association
+        // stays), the author with the higher key has two stored, unacknowledged operations; then the process is killed
+        use p2panda::operation::Extensions;
+        use p2panda_core::cbor::encode_cbor;
+        use p2panda_core::test_utils::TestLog;
+        use p2panda_store::operations::OperationStore;
+        let (url, topic, log) = (&argv[2], topic_from(&argv[3]), &argv[4]);
+        let ext = Extensions::from_topic(topic);
+        let (l1, l2) = (TestLog::new(), TestLog::new());
+        let (low, high) = if l1.author() < l2.author() { (l1, l2) } else { (l2, l1) };
+        let lo0 = low.operation(&encode_cbor(&"low").unwrap(), ext.clone());
+        let h0 = high.operation(&encode_cbor(&"high 0").unwrap(), ext.clone());
+        let h1 = high.operation(&encode_cbor(&"high 1").unwrap(), ext.clone());
+        let mut f = std::fs::OpenOptions::new().create(true).append(true).open(log).unwrap();
+        let node = p2panda::builder().database_url(url).ack_policy(AckPolicy::Explicit).spawn().await.unwrap();
+        let (tx, mut rx) = node.stream::<String>(topic).await.unwrap();
+        let lo_id = lo0.hash;
+        let ids = [hex(h0.hash.as_bytes()), hex(h1.hash.as_bytes())];
+        let imp = tx.import(futures_util::stream::iter(vec![lo0, h0, h1])).await.unwrap(); let _ = imp.await;
+        let mut seen = 0; while seen < 3 { match tokio::time::timeout(Duration::from_secs(120), rx.next()).await { Ok(Some(StreamEvent::Processed { .. })) => seen += 1, Ok(Some(_)) => {}, _ => break } }
+        if seen == 3 {
+            use p2panda_store::Transaction;
+            let store = node.store();
+            let permit = store.begin().await.unwrap();
+            let _ = OperationStore::<p2panda::operation::Operation, Hash>::delete_operation(&store, &lo_id).await;
+            store.commit(permit).await.unwrap();
+            for i in ids.iter() { writeln!(f, "P {i}").unwrap(); }
+            writeln!(f, "F done").unwrap(); f.sync_all().unwrap();
+        }
+        std::process::abort();
+    }
     if argv.len() > 1 && argv[1] == "--child" {
         let acks: Vec<usize> = if argv[5].is_empty() { vec![] } else { argv[5].split(',').map(|x| x.parse().unwrap()).collect() };
         child(&argv[2], topic_from(&argv[3]), argv[4].parse().unwrap(), &acks, argv[6].parse().unwrap(), &argv[7]).await;
@@ -142,14 +174,16 @@ async fn main() {
     // ---- operations that FAIL processing must not move the acknowledged frontier: an author's two stored, unacknowledged
     // operations; then invalid operations claiming that author arrive (forged signature, with and without a body, at a
     // higher sequence number); restart; both stored operations must be replayed
-    for with_body in [false, true] {
+    for mode in 0..3u8 {
+        let with_body = mode == 1;
         n_eval += 1;
-        let db = dir.join(format!("f{}.sqlite", with_body as u8));
-        let log = dir.join(format!("f{}.log", with_body as u8));
+        let db = dir.join(format!("f{mode}.sqlite"));
+        let log = dir.join(format!("f{mode}.log"));
         let url = format!("sqlite://{}?mode=rwc", db.display());
         let topic = Topic::random();
-        let st = std::process::Command::new(&exe).args(["--child-forged", &url, &hex(topic.as_bytes()), if with_body { "1" } else { "0" }, log.to_str().unwrap()])
-            .stdout(std::process::Stdio::null()).stderr(std::process::Stdio::null()).status();
+        let st = if mode == 2 { std::process::Command::new(&exe).args(["--child-two", &url, &hex(topic.as_bytes()), log.to_str().unwrap()]).stdout(std::process::Stdio::null()).stderr(std::process::Stdio::null()).status() }
+            else { std::process::Command::new(&exe).args(["--child-forged", &url, &hex(topic.as_bytes()), if with_body { "1" } else { "0" }, log.to_str().unwrap()])
+            .stdout(std::process::Stdio::null()).stderr(std::process::Stdio::null()).status() };
         if st.is_err() { continue; }
         let lines: Vec<String> = std::fs::read_to_string(&log).unwrap_or_default().lines().map(|l| l.to_string()).collect();
         let want: Vec<String> = lines.iter().filter(|l| l.starts_with("P ")).map(|l| l[2..].to_string()).collect();
@@ -163,7 +197,7 @@ async fn main() {
         loop { match tokio::time::timeout(Duration::from_secs(if got.len() < 2 { 60 } else { 3 }), rx.next()).await { Ok(Some(StreamEvent::Processed { operation, .. })) => got.push(hex(operation.id().as_bytes())), Ok(Some(StreamEvent::ReplayEnded)) => break, Ok(Some(_)) => {}, _ => break } }
         if got == want { nonempty += 1; }
         if got != want && reported.insert("unacknowledged-operation-not-replayed-after-restart") {
-            rp_core::report(true, "unacknowledged-operation-not-replayed-after-restart", json!({"stored_unacknowledged": 2, "then": format!("an invalid operation claiming the same author at seq 7 ({}) is imported and rejected", if with_body { "with a body" } else { "without a body" }), "restart": true}),
+            rp_core::report(true, "unacknowledged-operation-not-replayed-after-restart", json!({"stored_unacknowledged": 2, "then": if mode == 2 { "another author of the topic (lower key) has its only operation deleted again".to_string() } else { format!("an invalid operation claiming the same author at seq 7 ({}) is imported and rejected", if with_body { "with a body" } else { "without a body" }) }, "restart": true}),
                 json!({"replayed": got.len(), "expected": 2}), &["acked::Acked::ack.ensures#ok_advances_to_pointwise_max", "acked::Acked::nacked_log_ranges.ensures#from_frontier_exactly_the_stored_operations_above_the_acknowledged_height"]);
         }
     }
@@ -171,5 +205,5 @@ async fn main() {
     println!("{}", json!({"summary": true, "function": "crash (kill between API calls) + restart on file-backed SQLite: p2panda/src/streams/{replay.rs replay_log_ranges, stream.rs, forge.rs} and the SQL stores, through the public Node API",
         "evaluations": n_eval, "distinct_nontrivial": nonempty, "exhaustive": true,
         "rule": "child process publishes n <= 3 messages and acknowledges a chosen list of them, is aborted after every possible number of completed API calls; the parent restarts a node on the same database file and compares what the stream replays from its frontier with: published and not covered by an acknowledgement",
-        "bound": format!("1 author, 1 log, n <= {max_n}, acknowledgement lists over the published messages, kill points between API calls"), "violating_classes": reported}));
+        "bound": format!("1 author, 1 log, n <= {max_n}, acknowledgement lists over the published messages, kill points between API calls; plus three fixed histories: a rejected forged operation at a higher height (with / without body), and a second author of the topic with a lower key whose only operation was deleted again"), "violating_classes": reported}));
 }
